@@ -742,7 +742,15 @@ def timing_extra(ctx, facts, kind="deadline", with_client=True):
     ctx.cov["timing_scenarios"] = rep["evaluations"]
     ctx.cov["evaluations"] += rep["evaluations"]
     ctx.cov["samples"] += rep.get("samples", [])[:2]
-    for v in [x for x in rep["violations"] if x.get("kind") == kind][:4]:
+    found = [x for x in rep["violations"] if x.get("kind") == kind]
+    if found:
+        # real-time scenarios: a finding must persist with every timeout four times larger (a heavily loaded machine can make a
+        # "timely" request late at T = 200 ms; that is the machine, not the server)
+        rc2, rep2, out2, err2 = run_harness(["timing", "-seed", str(ctx.seed), "-scale", "4"], timeout=900)
+        ctx.cov["timing_confirmation_run"] = True
+        if rep2 is not None:
+            found = [dict(x, confirmed="persisted with every timeout four times larger") for x in rep2["violations"] if x.get("kind") == kind]
+    for v in found[:4]:
         ctx.violation("timing", v)
 
 
